@@ -1085,9 +1085,12 @@ def oracle(ctx, spec, before, werr, doc2, lerr, after):
     if topa != topb:
         extra = [t for t in topb if t not in topa]
         missing = [t for t in topa if t not in topb]
-        if not missing and extra and all(t[1].startswith("silentSyn_") for t in extra) \
-                and "C05:dangling-pre-component" in keys:
-            pass
+        ids = {t[1] for t in spec["topspec"]}
+        dangling = any(c["preComp"] not in ids for ns in spec["nets"] for p in ns["cprojs"]
+                       for c in p["plain"] + p["insts"] + p["instWs"])
+        if not missing and extra and all(t[1].startswith("silentSyn_") for t in extra) and dangling:
+            keys.setdefault("C05:dangling-pre-component", "a SilentSynapse %s was generated for an undefined preComponent"
+                            % extra[0][1])
         else:
             keys.setdefault("C05:top-level-components-differ", "missing %s extra %s" % (missing[:2], extra[:2]))
     for k in check_extras(spec, doc2):
@@ -1349,6 +1352,10 @@ def _corpus():
     # KNOWN: two synapses inside one electrical projection
     out.append(_base("corpus:mixed-syn", eprojs=[{"id": "ep1", "pre": "zpop", "post": "zpop", "insts": [], "instWs": [], "plain": [
         mk_conn(0, ["plain", 1], ["plain", 2], syn="gj"), mk_conn(1, ["plain", 2], ["plain", 3], syn="gj2")]}]))
+    # both at once (was classified as a difference in the top-level components only)
+    out.append(_base("corpus:mixed-and-dangling", cprojs=[{"id": "cp1", "pre": "zpop", "post": "zpop", "insts": [], "instWs": [], "plain": [
+        mk_conn(0, ["plain", 1], ["plain", 2], syn="gs1", preComp="undefinedComp"),
+        mk_conn(1, ["plain", 2], ["plain", 3], syn="gs2", preComp="undefinedComp")]}]))
     # KNOWN: weighted electrical connection between two sized populations
     out.append(_base("corpus:w-sized", eprojs=[{"id": "ep1", "pre": "zpop", "post": "zpop", "plain": [],
         "insts": [mk_conn(4, _zb(0), _zb(1), syn="gj")], "instWs": [mk_conn(9, _zb(1), _zb(2), weight=F(1, 2), syn="gj")]}]))
